@@ -8,19 +8,28 @@
 (*                                       cancelled before Subscribe)       *)
 (*   {"t":"ev","q":..,"m":..,"c":..,"o":..,"i":..,"s":..}  one observed    *)
 (*        channel operation (same fields as the moves of MC_C15; q is the  *)
-(*        per-script sequence number) or, with m = "fin", the              *)
-(*        goroutine-profile observation after the environment stopped      *)
-(*        (o = "na" | "no" | "yes"); every script ends with its fin line   *)
+(*        per-script sequence number); additionally                        *)
+(*          m = "park"    the resolver of event i was seen parked,         *)
+(*          m = "release" the harness let the resolver of event i return,  *)
+(*          m = "fin"     the goroutine-profile observation after the      *)
+(*                        environment stopped (o = "na" | "no" | "yes",    *)
+(*                        for "yes" c = "fwd" | "exec": who is blocked);   *)
+(*        every script ends with its fin line                              *)
 (*   {"t":"end"}                                                           *)
-(* The forwarder's own steps are not observable: they are interleaved as   *)
-(* silent steps (Silent), so acceptance cannot use the search depth; a     *)
-(* high-water mark of the consumed line number is kept in TLC register 1   *)
-(* (run with -workers 1).                                                  *)
+(* The steps of the forwarder and of the executors are not observable:     *)
+(* they are interleaved as silent steps (Silent), so acceptance cannot use *)
+(* the search depth; a high-water mark of the consumed line number is kept *)
+(* in TLC register 1 (run with -workers 1).                                *)
 (*                                                                         *)
 (* Dev is the set of deviations listed in known_findings.json.  The        *)
 (* observation "the forwarder is blocked in its send for ever although the *)
-(* context is cancelled" (fin/yes) is a behaviour of the as-is design only *)
-(* and is accepted only when D_C15_send_ignores_ctx is listed.             *)
+(* context is cancelled" (fin/yes/fwd) is a behaviour of the as-is design  *)
+(* only and is accepted only when D_C15_send_ignores_ctx is listed;        *)
+(* likewise "an executor is blocked in its hand-off send for ever"         *)
+(* (fin/yes/exec) is a behaviour of the Cap = 0 design only                *)
+(* (D_C15_handoff_unbuffered).  The trace is validated with Cap = 1: such  *)
+(* a state is one in which the executor could still take the step that     *)
+(* only Cap >= 1 allows.                                                   *)
 (***************************************************************************)
 EXTENDS Subscription, C15Bind, Json
 
@@ -44,6 +53,7 @@ TInit ==
   /\ mode = "ok" /\ cancelled = FALSE /\ sent = <<>> /\ srcClosed = TRUE
   /\ fpc = "done" /\ cur = None /\ last = FALSE
   /\ delivered = <<>> /\ outClosed = TRUE /\ cstop = FALSE /\ seenClosed = FALSE
+  /\ epc = [i \in Evs |-> "idle"] /\ hbuf = [i \in Evs |-> FALSE]
 
 LoadScript ==
   /\ l <= Len(TraceLog) /\ Line.t = "script"
@@ -53,9 +63,13 @@ LoadScript ==
   /\ sent' = <<>> /\ srcClosed' = FALSE
   /\ fpc' = "start" /\ cur' = None /\ last' = FALSE
   /\ delivered' = <<>> /\ outClosed' = FALSE /\ cstop' = FALSE /\ seenClosed' = FALSE
+  /\ epc' = [i \in Evs |-> "idle"] /\ hbuf' = [i \in Evs |-> FALSE]
   /\ l' = l + 1 /\ seq' = 0 /\ fdone' = FALSE
 
-Silent == l <= Len(TraceLog) /\ ~fdone /\ FwdInternal /\ UNCHANGED <<l, seq, fdone>>
+Silent ==
+  /\ l <= Len(TraceLog) /\ ~fdone
+  /\ (FwdInternal \/ \E i \in Evs : ExecStep(i))
+  /\ UNCHANGED <<l, seq, fdone>>
 
 EvSnd ==
   /\ IsEv("snd")
@@ -66,6 +80,10 @@ EvSnd ==
 EvCls    == IsEv("cls") /\ SrcClose /\ Step
 EvCancel == IsEv("cancel") /\ Cancel /\ Step
 EvStall  == IsEv("stall") /\ ConsumerStop /\ Step
+\* the harness saw the resolver of event i arrive at its gate (an observation, no step of the system)
+EvPark    == IsEv("park") /\ Line.i \in Evs /\ epc[Line.i] = "parked" /\ UNCHANGED vars /\ Step
+\* the harness opened the gate of event i
+EvRelease == IsEv("release") /\ Line.i \in Evs /\ Release(Line.i) /\ Step
 
 EvRcv ==
   /\ IsEv("rcv")
@@ -77,27 +95,31 @@ EvRcv ==
      \/ /\ Line.o = "closed"
         /\ outClosed /\ ~cstop
         /\ seenClosed' = TRUE
-        /\ UNCHANGED <<mode, cancelled, sent, srcClosed, fpc, cur, last, delivered, outClosed, cstop>>
+        /\ UNCHANGED <<mode, cancelled, sent, srcClosed, fpc, cur, last, delivered, outClosed, cstop, xvars>>
   /\ Step
 
-\* observation of the forwarder goroutine after the environment stopped
+\* observation of all goroutines started for the subscription after the environment stopped
 EvFin ==
   /\ IsEv("fin")
-  /\ \/ Line.o = "na" /\ ~cancelled
-     \/ Line.o = "no" /\ cancelled /\ fpc = "done"
-     \/ Line.o = "yes" /\ cancelled /\ fpc = "send" /\ "D_C15_send_ignores_ctx" \in Dev
+  /\ \/ Line.o = "na" /\ (~cancelled \/ Parked # {})
+     \/ Line.o = "no" /\ cancelled /\ Parked = {} /\ AllGone
+     \/ /\ Line.o = "yes" /\ Line.c = "fwd" /\ cancelled /\ Parked = {}
+        /\ fpc = "send" /\ "D_C15_send_ignores_ctx" \in Dev
+     \/ /\ Line.o = "yes" /\ Line.c = "exec" /\ cancelled /\ Parked = {}
+        /\ fpc = "done" /\ (\E i \in Evs : epc[i] = "send") /\ (\A i \in Evs : epc[i] # "run")
+        /\ "D_C15_handoff_unbuffered" \in Dev
   /\ UNCHANGED vars
   /\ l' = l + 1 /\ seq' = seq + 1 /\ fdone' = TRUE
 
 End == l <= Len(TraceLog) /\ Line.t = "end" /\ fdone /\ UNCHANGED <<vars, seq, fdone>> /\ l' = l + 1
 
-TNext == LoadScript \/ Silent \/ EvSnd \/ EvCls \/ EvCancel \/ EvStall \/ EvRcv \/ EvFin \/ End
+TNext == LoadScript \/ Silent \/ EvSnd \/ EvCls \/ EvCancel \/ EvStall \/ EvPark \/ EvRelease \/ EvRcv \/ EvFin \/ End
 TraceSpec == TInit /\ [][TNext]_tvars
 
 \* the safety part of C15 is re-checked on every state of every accepted prefix
 TraceInv ==
   /\ TLCSet(1, IF TLCGet(1) < l THEN l ELSE TLCGet(1))
-  /\ PrefixInOrder /\ NothingLost /\ ClosedOnlyAfter /\ ErrorOnce
+  /\ PrefixInOrder /\ NothingLost /\ ClosedOnlyAfter /\ ErrorOnce /\ ExecInv
 
 TraceAccepted ==
   IF TLCGet(1) = Len(TraceLog) + 1 THEN TRUE
